@@ -14,6 +14,6 @@ GROUPS = [
 ASSUMPTIONS = [
     'A6 the 64-bit arrival counter does not wrap',
     'exactly `count` fibers use the barrier (as the statement says)',
-    'park contract "my grant was issued by my round\'s serial fiber" is justified by lemma_twin only under the restriction that no released fiber re-enters while the serial fiber is still in its wake loop; without the restriction the lemma fails (known finding D4)',
+    'park contract "my grant was issued by my round\'s serial fiber" is justified by the protocol lemma (lemmas.c: with alternating wait lists the round-k serial fiber pops only round-k entries) and the mpsc queue contract (C15); the lemma is over the abstract protocol, tied to the code by the per-call obligations "parks on / wakes from the list of its own round"',
     'the clause "SERIAL iff the arrival number is a multiple of count" is cross-checked for the listed concrete counts only (all 2^64 arrival numbers each): a second symbolic 64-bit modulo is beyond every SAT back end on this image; for symbolic count the proof covers everything else (one arrival, serial branch wakes count-1 once and never parks, other branch parks once)',
 ]
